@@ -296,4 +296,88 @@ theorem globalClustering_c_relabel (h : IsPerm n idx) (adj : Adj) (adm : Mat) :
   exact csum_relabel h _ (fun i => Circuit.localClustering n adj adm i)
     fun i _ => localClustering_c_relabel h adj adm i
 
+/-! ### current-flow betweenness kernels (`src_numerics.c`) -/
+
+/-- current through node `i` for the pair `(s,t)` (C18's `nodeCurrent`, unit currents) -/
+def nodeCur (n : Nat) (adm R : Mat) (i s t : Nat) : Rat :=
+  ∑ j ∈ range n, adm i j * |(R i s - R j s) + (R j t - R i t)| / 2
+
+theorem nodeCur_symm (adm R : Mat) (i s t : Nat) : nodeCur n adm R i s t = nodeCur n adm R i t s := by
+  unfold nodeCur
+  refine Finset.sum_congr rfl fun j _ => ?_
+  rw [show (R i s - R j s) + (R j t - R i t) = -((R i t - R j t) + (R j s - R i s)) by ring, abs_neg]
+
+theorem vcfb_sum (adm R : Mat) (i : Nat) :
+    vcfbKernel n 1 1 adm R i
+      = ∑ t ∈ range n, ∑ s ∈ range t,
+          (if i = t ∨ i = s then 0 else 2 * nodeCur n adm R i s t / ((n * (n - 1) : Nat) : Rat)) := by
+  unfold vcfbKernel
+  rw [foldl_nested (h := fun t => ∑ s ∈ range t,
+      (if i = t ∨ i = s then 0 else 2 * nodeCur n adm R i s t / ((n * (n - 1) : Nat) : Rat)))]
+  · rw [zero_add]
+  · intro t acc
+    rw [foldl_skip_range (c := fun s => i = t ∨ i = s)]
+    congr 1
+    refine Finset.sum_congr rfl fun s _ => ?_
+    split
+    · rfl
+    · simp only [foldl_add_range, zero_add, nodeCur, absR_eq, one_mul]
+
+theorem ecfb_sum (adm R : Mat) (i j : Nat) :
+    ecfbKernel n 1 1 adm R i j
+      = 2 * (∑ t ∈ range n, ∑ s ∈ range t, adm i j * |(R i s - R j s) + (R j t - R i t)|)
+          / ((n * (n - 1) : Nat) : Rat) := by
+  unfold ecfbKernel
+  simp only
+  rw [foldl_nested (h := fun t => ∑ s ∈ range t,
+      adm i j * |1 * (R i s - R j s) + 1 * (R j t - R i t)|)]
+  · simp only [zero_add, one_mul]
+  · intro t acc
+    rw [foldl_add_range]
+    simp only [absR_eq]
+
+/-- **vertex current-flow betweenness** (`_vertex_current_flow_betweenness_fast`, the triangular
+`for t: for s in range(t)` loop with its `continue`) -/
+theorem vcfb_relabel (h : IsPerm n idx) (adm R R' : Mat)
+    (hR : ∀ a b, a < n → b < n → R' a b = R (idx a) (idx b)) (i : Nat) (hi : i < n) :
+    vcfbKernel n 1 1 (mat adm idx) R' i = vcfbKernel n 1 1 adm R (idx i) := by
+  rw [vcfb_sum, vcfb_sum]
+  have cur : ∀ s t, s < n → t < n →
+      nodeCur n (mat adm idx) R' i s t = nodeCur n adm R (idx i) (idx s) (idx t) := by
+    intro s t hs ht
+    unfold nodeCur
+    apply fsum_relabel h
+    intro j hj
+    rw [hR i s hi hs, hR j s hj hs, hR j t hj ht, hR i t hi ht]; rfl
+  apply tri_sum_relabel h
+    (fun s t => if idx i = t ∨ idx i = s then 0
+      else 2 * nodeCur n adm R (idx i) s t / ((n * (n - 1) : Nat) : Rat))
+    (fun s t => if i = t ∨ i = s then 0
+      else 2 * nodeCur n (mat adm idx) R' i s t / ((n * (n - 1) : Nat) : Rat))
+  · intro s t
+    simp only [nodeCur_symm adm R (idx i) s t, or_comm]
+  · intro s t
+    simp only [nodeCur_symm (mat adm idx) R' i s t, or_comm]
+  · intro s t hs ht
+    rw [cur s t hs ht]
+    simp only [h.eq_iff hi ht, h.eq_iff hi hs]
+
+/-- **edge current-flow betweenness** -/
+theorem ecfb_relabel (h : IsPerm n idx) (adm R R' : Mat)
+    (hR : ∀ a b, a < n → b < n → R' a b = R (idx a) (idx b)) (i j : Nat) (hi : i < n) (hj : j < n) :
+    ecfbKernel n 1 1 (mat adm idx) R' i j = ecfbKernel n 1 1 adm R (idx i) (idx j) := by
+  rw [ecfb_sum, ecfb_sum]
+  congr 2
+  apply tri_sum_relabel h
+    (fun s t => adm (idx i) (idx j) * |(R (idx i) s - R (idx j) s) + (R (idx j) t - R (idx i) t)|)
+    (fun s t => mat adm idx i j * |(R' i s - R' j s) + (R' j t - R' i t)|)
+  · intro s t
+    rw [show (R (idx i) s - R (idx j) s) + (R (idx j) t - R (idx i) t)
+        = -((R (idx i) t - R (idx j) t) + (R (idx j) s - R (idx i) s)) by ring, abs_neg]
+  · intro s t
+    rw [show (R' i s - R' j s) + (R' j t - R' i t)
+        = -((R' i t - R' j t) + (R' j s - R' i s)) by ring, abs_neg]
+  · intro s t hs ht
+    rw [hR i s hi hs, hR j s hj hs, hR j t hj ht, hR i t hi ht]; rfl
+
 end Pyunicorn.Relabel
